@@ -44,37 +44,32 @@ def _range_loop(loop: ast.For) -> Optional[tuple[str, str, str]]:
 
 
 def check(ctx, f: FuncInfo, rule: str = "R-SAMESLICE") -> int:
-    nz = Normalizer()
+    """Every position-dependent slice X[lo:hi] in a partition loop of `f` is X[Σ : Σ + n] (sa/rules/partition.py:
+    Σ = number of members in the preceding blocks, n = size of this block), whatever idiom the loop uses to walk
+    over the chunk sizes (zip of prefix sums, start/size pairs, chunk_ranges, a running offset)."""
+    from .partition import PREFIX, SIZE, find_loops
+    from ..terms import Poly
+
     n = 0
-    loops = [l for l in walk_no_nested(f.node) if isinstance(l, ast.For)]
     found = []
-    for loop in loops:
-        r = _range_loop(loop)
-        if r is None:
-            continue
-        a, b, form = r
-        A, B = nz.norm(ast.Name(id=a, ctx=ast.Load())), nz.norm(ast.Name(id=b, ctx=ast.Load()))
-        exp_lo, exp_hi = A, (B if form == "ranges" else A + B)
-        slices = []
-        for st in loop.body:
-            for s in ast.walk(st):
-                if isinstance(s, ast.Subscript) and isinstance(s.slice, ast.Slice) and isinstance(s.ctx, ast.Load):
-                    names = {x.id for x in ast.walk(s.slice) if isinstance(x, ast.Name)}
-                    if names & {a, b}:
-                        slices.append(s)
-        found.append((loop, form, len(slices)))
-        for s in slices:
-            lo = nz.norm(s.slice.lower) if s.slice.lower is not None else None
-            hi = nz.norm(s.slice.upper) if s.slice.upper is not None else None
-            ok = lo == exp_lo and hi == exp_hi and s.slice.step is None
+    S, N = Poly.atom(PREFIX), Poly.atom(SIZE)
+    for pe in find_loops(f):
+        slices = pe.position_slices()
+        if not slices and pe.form == "sizes":
+            continue  # an ordinary loop over some sequence that slices nothing by position
+        found.append(pe)
+        for s, node_idx, lo, hi in slices:
+            ok = lo == S and hi == S + N and s.slice.step is None
             n += 1
-            want = f"[{a}:{b}]" if form == "ranges" else f"[{a}:{a} + {b}]"
+            show = lambda p: p.key().replace("1*", "") if p is not None else ""
             ctx.check(ok, rule, f"{f.qualname}:{norm_text(s.value)}", f.loc(s),
-                      f"block takes {norm_text(s)} = the loop's own range {want}",
-                      f"block takes {norm_text(s)} but the loop's range is {want}: members are dropped, duplicated or "
-                      "misaligned with the other partitioned sequences when the blocks are reassembled",
-                      key_detail=norm_text(s.value))
+                      f"block takes {norm_text(s)} = [Σ : Σ + n] (Σ members in the preceding blocks, n in this one)",
+                      f"block takes {norm_text(s)}, i.e. [{show(lo)} : {show(hi)}] with Σ = members in the preceding "
+                      "blocks, n = size of this block, k = block number; a block of a partition is [Σ : Σ + n]: members "
+                      "are dropped, duplicated or misaligned with the other partitioned sequences when the blocks are "
+                      "reassembled", key_detail=norm_text(s.value))
     # lazy / eager arms iterate the same ranges
+    nz = Normalizer()
     for node in walk_no_nested(f.node):
         if isinstance(node, ast.If) and node.orelse and lazy_polarity(node.test) is not None:
             arms = []
